@@ -54,14 +54,15 @@ SseFront(s) == SubSeq(s, 1, Len(s) - 1)
 
 \* split like str::split: n separators give n+1 pieces.  mode "lf": separator LF only (what the encoder does);
 \* mode "any": separators CR LF, CR, LF (what an event-stream parser does)
-RECURSIVE SplitFrom(_, _, _, _)
-SplitFrom(a, i, cur, mode) ==
-  IF i > Len(a) THEN <<cur>>
-  ELSE IF a[i] = LF THEN <<cur>> \o SplitFrom(a, i + 1, <<>>, mode)
+RECURSIVE SplitFrom(_, _, _, _, _)
+SplitFrom(a, i, start, acc, mode) ==      \* i: position read, start: first position of the current piece
+  IF i > Len(a) THEN Append(acc, SubSeq(a, start, Len(a)))
+  ELSE IF a[i] = LF THEN SplitFrom(a, i + 1, i + 1, Append(acc, SubSeq(a, start, i - 1)), mode)
   ELSE IF mode = "any" /\ a[i] = CR
-         THEN <<cur>> \o SplitFrom(a, IF i < Len(a) /\ a[i + 1] = LF THEN i + 2 ELSE i + 1, <<>>, mode)
-  ELSE SplitFrom(a, i + 1, Append(cur, a[i]), mode)
-Split(a, mode) == SplitFrom(a, 1, <<>>, mode)
+         THEN LET j == IF i < Len(a) /\ a[i + 1] = LF THEN i + 2 ELSE i + 1
+              IN SplitFrom(a, j, j, Append(acc, SubSeq(a, start, i - 1)), mode)
+  ELSE SplitFrom(a, i + 1, start, acc, mode)
+Split(a, mode) == SplitFrom(a, 1, 1, <<>>, mode)
 
 RECURSIVE JoinFrom(_, _, _)
 JoinFrom(ls, i, sep) == IF i > Len(ls) THEN <<>>
